@@ -573,6 +573,16 @@ static int m_recv(const void *sk, void *buf, const size_t len, const time_t time
 	if (s->finished && old == PTHREAD_CANCEL_ENABLE && !s->parked)
 		park(s);
 	sim_apply_events(s, true);
+	/* the interval mode is a run-time setting (rtr_set_interval_mode is public): what counts for an End of Data is the
+	 * mode configured when it is processed, so the switch may come in the middle of a response.  Made here, on the
+	 * client's own thread between two of its reads, it is ordered with everything the client does. */
+	if (s->cfg.mode_switch_at_byte > 0 && !s->mode_switched && s->opens == 1 && s->connected && s->sock &&
+	    (long)s->delivered_total >= s->cfg.mode_switch_at_byte) {
+		s->mode_switched = true;
+		rtr_set_interval_mode(s->sock, (enum rtr_interval_mode)s->cfg.mode_switch_to);
+		s->cfg.iv_mode = s->cfg.mode_switch_to;
+		CNT(s->ex.open ? "c17/interval_mode_switched_inside_a_response" : "c17/interval_mode_switched_between_responses");
+	}
 	int f = tfault_for_call(s, TC_RECV);
 
 	/* fault by stream position: the read that would deliver byte number intr_at_byte + 1 of this connection is
